@@ -137,6 +137,7 @@ def gen_plan(rng, index, tier):
         steps.insert(rng.randrange(len(steps) + 1), {"op": "factor", "T0": round(rng.uniform(lo, hi), 2), "Tc": rng.choice([None, None, round(rng.uniform(lo, hi), 2)])})
     cfg["path2"] = path2 + [path2_end]
     cfg["sharedDict"] = rng.random() < 0.4
+    cfg["pinDetail"] = rng.choice([None, None, "pin", "detail", "both"])
     cfg["linked"] = rng.random() < 0.6
     if cfg["linked"] and rng.random() < 0.35:
         steps.insert(rng.randrange(0, max(1, len(steps) - 1)), {"op": "freeze"})
@@ -230,6 +231,19 @@ def execute(plan):
         comp_dict0 = dict(comp_dict)
         twin_nd0 = {k: float(v) for k, v in twin.getNumberDensities().items()}
         probes["composition_dict_shared_by_two_components"] = 1
+    # pin-wise and detailed number densities (set by depletion); they are number densities too
+    pin0 = det0 = None
+    if nonzero and not fluidish and cfg.get("pinDetail"):
+        import numpy as np
+
+        c.setTemperature(cfg["Tinput"])
+        if cfg["pinDetail"] in ("pin", "both"):
+            c.p.pinNDens = np.array([[0.01, 0.002], [0.011, 0.0021], [0.012, 0.0022]])
+            pin0 = c.p.pinNDens.copy()
+        if cfg["pinDetail"] in ("detail", "both"):
+            c.p.detailedNDens = np.array([0.013, 0.0003, 0.00007])
+            det0 = c.p.detailedNDens.copy()
+        probes["pin_or_detailed_number_densities_set"] = 1
     mph0 = mass_per_height(c) if nonzero else None
     cold = {d: float(c.getDimension(d, cold=True)) for d in te_dims}
     cold_area = float(c.getArea(cold=True))
@@ -265,6 +279,14 @@ def execute(plan):
                 mph = mass_per_height(c)
                 if not rel(mph, mph_ref[0], 1e-9):
                     fail("C03.mass", f"{tag}: mass per unit height at {T} C is {mph}, was {mph_ref[0]}", what="mass-per-height")
+        if not cold_changed:
+            import numpy as np
+
+            for nm, v0 in (("pinNDens", pin0), ("detailedNDens", det0)):
+                if v0 is not None:
+                    got = np.asarray(c.p[nm], dtype=float)
+                    if not np.allclose(got * f * f, v0, rtol=2e-5, atol=0.0):  # (armi keeps these arrays in single precision; ramps of 200 steps accumulate that)
+                        fail("C03.density", f"{tag}: {nm} at {T} C is {got.ravel()[:3]}, input-temperature values / factor^2 = {(v0 / (f * f)).ravel()[:3]}", what=nm)
         if twin is not None:
             for nuc, v in twin_nd0.items():
                 if not rel(float(twin.getNumberDensities().get(nuc, 0.0)), v, 1e-12):
